@@ -672,7 +672,7 @@ def parse_mir(text: str) -> Dict[str, Function]:
                 fns[f.name] = f
             else:
                 # promoted / const body:  const NAME: TYPE = {
-                m = re.match(r"^(?:const|static(?: mut)?) (.*?): (.*) = \{$", line)
+                m = re.match(r"^(?:const|static(?: mut)?) (.*): (.*?) = \{$", line)
                 if m:
                     hdr = f"fn {m.group(1)}() -> {m.group(2)} {{"
                     try:
